@@ -151,7 +151,7 @@ func checkC11(p *load.Program, r *kit.Report) {
 	r.Rule("COVER-ALL", "loadHistoricalHashHeights starts at the file that holds the height right below the main branch's lowest in-memory height (every best-chain hash below the in-memory part gets its height back)", 1)
 	r.Rule("MUST-PASS", "saveInvalidHashes writes its key on every successful path (an emptied list replaces the stored one)", 1)
 	r.Rule("MAIN-FILE-SHAPE", "saveMainBranch starts in file lowest/headersPerFile at byte (lowest - file·headersPerFile)·recordSize + 1 (version byte), keeps exactly that prefix of the stored file, rolls over to file+1 every headersPerFile heights; readers (C09) use the same constants", 3)
-	r.Rule("MERGE-SHAPE", "Branch.Save stores previous.headers[:b.offset-previous.offset] ++ b.headers (all in-memory headers) and writes on every successful path; Save runs saveMainBranch, saveBranches, saveInvalidHashes each behind the previous success; saveInvalidHashes always writes; load merges the configured invalid hashes behind a not-found test", 5)
+	r.Rule("MERGE-SHAPE", "Branch.Save stores previous.headers[:b.offset-previous.offset] ++ b.headers (all in-memory headers) and writes on every successful path; Save runs saveMainBranch, saveBranches, saveInvalidHashes each behind the previous success; saveInvalidHashes always writes; load merges the configured invalid hashes behind a not-found test, and every configured hash that no stored hash equals is appended (the found flag does not survive from one configured hash to the next)", 6)
 
 	hd := func(n string) *ssa.Function { return fn(p, r, "CODEC-SYM", H, n) }
 	expand := map[string]bool{H + ".serializeBigInt": true, H + ".deserializeBigInt": true}
@@ -271,6 +271,7 @@ func checkC11(p *load.Program, r *kit.Report) {
 			bad = "configured invalid hashes are not merged into the loaded list"
 		}
 		r.Check(bad == "", "MERGE-SHAPE", "load/invalid-list", posOf(p, f.Blocks[0].Instrs[0]), "invalid list = stored list ∪ configured hashes", bad)
+		checkConfigMerge(p, r, "MERGE-SHAPE", f, cfgF)
 		// the tip is selected from the branches in stored (= creation) order: Longest() breaks
 		// ties of accumulated work by position, and the running repository's order is the index
 		// order; the list is re-sorted by parent height only afterwards, for linking
@@ -773,4 +774,70 @@ func checkSaveMainBranch(p *load.Program, r *kit.Report) {
 		bad = "no rollover to the next file every headersPerFile heights"
 	}
 	r.Check(bad == "", "MAIN-FILE-SHAPE", "saveMainBranch/rollover", pos, "file+1 and boundary+headersPerFile at each file end", bad)
+}
+
+
+// checkConfigMerge: in load, every configured invalid hash that equals none of the hashes of the
+// list is appended to it. Decided on the loop over config.InvalidHeaderHashes: from the start of an
+// iteration, along the paths on which no Equal answers true, the append is reached before the next
+// iteration (a `found` flag that is not reset per configured hash fails this: once one configured
+// hash was found, the following ones are skipped and are accepted when submitted).
+func checkConfigMerge(p *load.Program, r *kit.Report, rule string, f *ssa.Function, cfgF *types.Var) {
+	var ap *ssa.Call
+	kit.AllInstrs(f, func(in ssa.Instruction) {
+		c, ok := in.(*ssa.Call)
+		if ok && kit.CallID(c) == "builtin.append" && len(c.Call.Args) == 2 && kit.DependsOn(c.Call.Args[1], func(x ssa.Value) bool { return loadOfField(x, cfgF) }) {
+			ap = c
+		}
+	})
+	key := "load/every-configured-hash-merged"
+	if ap == nil {
+		r.Bad(rule, key, posOf(p, f.Blocks[0].Instrs[0]), "no append of a configured invalid hash")
+		return
+	}
+	// the loop over the configured hashes: the outermost loop around the append whose range is the
+	// config field
+	var header, body *ssa.BasicBlock
+	for _, h := range f.Blocks {
+		back := false
+		for _, pr := range h.Preds {
+			if h.Dominates(pr) {
+				back = true
+			}
+		}
+		if !back {
+			continue
+		}
+		l := naturalLoop(h)
+		if !l[ap.Block()] {
+			continue
+		}
+		if header == nil || len(l) > len(naturalLoop(header)) {
+			header = h
+		}
+	}
+	if header != nil {
+		l := naturalLoop(header)
+		for _, sc := range header.Succs {
+			if l[sc] && sc != header {
+				body = sc
+			}
+		}
+	}
+	if header == nil || body == nil {
+		r.Unknown(rule, key, posOf(p, ap), "the append is not inside a loop over the configured hashes")
+		return
+	}
+	eqTrue := map[kit.Edge]bool{}
+	for _, e := range edgesOf(kit.FindGuards(f, kit.CallCond(func(c *ssa.Call) bool { return naturalLoop(header)[c.Block()] }, load.BitcoinPkg+".Hash32.Equal")), true) {
+		eqTrue[e] = true
+	}
+	rr := kit.Reach(f, []kit.Pt{{B: body, I: 0}}, kit.Opts{StopAt: kit.InstrSet(ap), BlockEdge: func(e kit.Edge) bool { return eqTrue[e] }})
+	bad := ""
+	if rr.Has(header.Instrs[0]) {
+		bad = "a configured invalid hash that equals none of the listed hashes can be skipped (" + rr.PathTo(header.Instrs[0], p.Pos) + "): the decision depends on state left by an earlier configured hash; the skipped hash is accepted when it is submitted"
+	} else if !rr.Has(ap) {
+		bad = "the append of a configured hash is not reachable when no listed hash equals it"
+	}
+	r.Check(bad == "", rule, key, posOf(p, ap), "each configured hash without an equal in the list is appended in its own iteration", bad)
 }
